@@ -15,7 +15,7 @@ func init() {
 	register(&propDef{
 		ID:      "C07",
 		Level:   "other",
-		Explain: "HTTP pass-through conditions decided on the region of proxy.HTTPProxy.ServeHTTP (the method, the helpers of package proxy it calls and their closures), the Director(s) and the response-writer wrappers; sites are found by what they do, not by the function that contains them today: (G1) every upstream-contact site lies, on every path, behind the target != nil edge of the route lookup (the test may live in a helper that returns the target or a verdict); (N1) where the looked-up target is known to be nil, WriteHeader gets a status whose only sources are Config.NoRouteStatus and the constant 404, and the noroute page is written on the same edge; (D1) every function stored into a ReverseProxy.Director (closure, named function, bound method) stores only to req.URL.{Scheme,Host,Path,RawPath,RawQuery} and touches no header but User-Agent, and FlushInterval is what the caller chose among the configured flush intervals; (H1) every Set/Add/Del/index-store on a request's header map reachable from ServeHTTP (also through a helper that takes the map or the key as a parameter) uses a key all of whose possible values are in the managed set (the forwarding headers, User-Agent, and the configured request-id / client-ip / TLS header names), and nothing stores to the request's Method, Body, Proto, ContentLength or TransferEncoding; (H2) every store to r.Host lies, on every path, behind a branch decided by Target.Host; (U1) on the URL that the Director copies into the outgoing request (all of its aliases across helpers): every strip / prepend of Path has a like operation on RawPath, RawPath starts from the client's RawPath, and every Director that copies Path copies RawPath; (U2) every stripped or prepended Path and RawPath is absolute by construction or passes, on every path before the URL is handed to the Director or installed in the request, an absolute-path normalisation of that field (HasPrefix(x, \"/\") true, \"/\"+x, for RawPath also empty); (Q1) every value stored to the URL's RawQuery is, in each of its alternatives, <route query>[&]<request query> with the separator exactly when both are known to be non-empty and nothing else mixed in; (W1) every wrapper implementing http.ResponseWriter forwards Header/Write/WriteHeader arguments unchanged on every path and returns the wrapped results. Where a rule asks for the sources of a value, a read of a field of a repository struct outside config/route (a per-request or per-upstream carrier such as upstream{target, tr, flush}) stands for everything stored to that field, an element of a slice/array literal or a package-level basic variable for its entries, and a function kept in such a field or passed as a method value for the functions it can denote; (H2) additionally requires that a direct comparison deciding the Host rewrite leaves the option non-empty; (W1) the forwarding call may sit in a helper method the wrapper method delegates to. Not decided: body bytes, chunking and hop-by-hop header handling (delegated to net/http/httputil.ReverseProxy).",
+		Explain: "HTTP pass-through conditions decided on the region of proxy.HTTPProxy.ServeHTTP (the method, the helpers of package proxy it calls and their closures), the Director(s) and the response-writer wrappers; sites are found by what they do, not by the function that contains them today: (G1) every upstream-contact site lies, on every path, behind the target != nil edge of the route lookup (the test may live in a helper that returns the target or a verdict); (N1) where the looked-up target is known to be nil, WriteHeader gets a status whose only sources are Config.NoRouteStatus and the constant 404, and the noroute page is written on the same edge; (D1) every function stored into a ReverseProxy.Director (closure, named function, bound method) stores only to req.URL.{Scheme,Host,Path,RawPath,RawQuery} and touches no header but User-Agent, and FlushInterval is what the caller chose among the configured flush intervals; (H1) every Set/Add/Del/index-store on a request's header map in the functions of package proxy the client's request can travel through from ServeHTTP (static calls, closures and function values taken are always followed; an interface call or a called function value is followed into every function of that shape that can hold a request - a parameter, receiver or captured variable that is or carries a request or a header map - including a handler type's own ServeHTTP; also through a helper that takes the map or the key as a parameter) uses a key all of whose possible values are in the managed set (the forwarding headers, User-Agent, and the configured request-id / client-ip / TLS header names), and nothing stores to the request's Method, Body, Proto, ContentLength or TransferEncoding; (H2) every store to r.Host lies, on every path, behind a branch decided by Target.Host; (U1) on the URL that the Director copies into the outgoing request (all of its aliases across helpers): every strip / prepend of Path has a like operation on RawPath, RawPath starts from the client's RawPath, and every Director that copies Path copies RawPath; (U2) every stripped or prepended Path and RawPath is absolute by construction or passes, on every path before the URL is handed to the Director or installed in the request, an absolute-path normalisation of that field (HasPrefix(x, \"/\") true, \"/\"+x, for RawPath also empty); (Q1) every value stored to the URL's RawQuery is, in each of its alternatives, <route query>[&]<request query> with the separator exactly when both are known to be non-empty and nothing else mixed in; (W1) every wrapper implementing http.ResponseWriter forwards Header/Write/WriteHeader arguments unchanged on every path and returns the wrapped results. Where a rule asks for the sources of a value, a read of a field of a repository struct outside config/route (a per-request or per-upstream carrier such as upstream{target, tr, flush}) stands for everything stored to that field, an element of a slice/array literal or a package-level basic variable for its entries, and a function kept in such a field or passed as a method value for the functions it can denote; (H2) additionally requires that a direct comparison deciding the Host rewrite leaves the option non-empty; (W1) the forwarding call may sit in a helper method the wrapper method delegates to. Not decided: body bytes, chunking and hop-by-hop header handling (delegated to net/http/httputil.ReverseProxy).",
 		Run:     runC07,
 		Trusted: []string{"net/http/httputil.ReverseProxy copies method, body and end-to-end headers unchanged and removes hop-by-hop headers", "url.URL.EscapedPath uses RawPath only when it is a valid encoding of Path"},
 		Mutants: []mutant{
@@ -322,7 +322,12 @@ func c07managedKey(key ssa.Value) (bool, string) {
 func runC07H(c *Ctx, serve *ssa.Function) {
 	sp := c.spkg("proxy")
 	scope := map[*ssa.Function]bool{}
-	for f := range c.reach(serve) {
+	// the functions of package proxy the client's request can travel through (c07_scope.go): the call graph's reach
+	// of ServeHTTP, restricted to functions that can hold a request, so that an over-approximated call of a
+	// func() value does not drag in unrelated code that builds a request of its own (the gRPC table lookup).
+	// A handler the request is handed to (the websocket handler as a closure or as a type with its own ServeHTTP)
+	// is part of the way upstream.
+	for f := range c07requestReach(c, serve) {
 		if rootPkg(f) == sp {
 			scope[f] = true
 		}
@@ -332,9 +337,6 @@ func runC07H(c *Ctx, serve *ssa.Function) {
 	}
 	var fns []*ssa.Function
 	for f := range scope {
-		if f.Name() == "ServeHTTP" && f != serve {
-			continue // other handlers' own ServeHTTP (ws handler closures are closures, not methods)
-		}
 		fns = append(fns, f)
 	}
 	sort.Slice(fns, func(i, j int) bool { return fns[i].String() < fns[j].String() })
